@@ -193,7 +193,7 @@ def run_and_check(rec, F, cnt, prefix='C04', check_temp=True):
             F.add(prefix + '.recorded_time', f'recorded time stamps not strictly increasing at index {k}: {rt[k]!r}, {rt[k + 1]!r}', where='record')
         elif len(rt) == len(post.steps) + 1:
             for k in range(len(post.steps)):
-                if not np.array_equal(np.asarray(m._recordedX[k + 1]), post.steps[k][3]) or rt[k + 1] != post.steps[k][0]:
+                if not np.array_equal(np.asarray(m._recordedX[k + 1]), post.steps[k][3], equal_nan=True) or rt[k + 1] != post.steps[k][0]:
                     F.add(prefix + '.recorded_state', f'recorded profile {k + 1} is not the state observed after step {k}', where='record')
                     break
         elif not capped:
